@@ -180,6 +180,14 @@ def gen_cases(rec, rng, tier):
         t = rxg.random_tree(rng, rng.randint(2, 9), 'abc', bias=rng.choice([None, 'star', 'unit']))
         if rx.size_iter(t) <= 80:
             yield {'kind': 'rx', 'cls': 'random_tree', 'ref': t}
+    # many labels on one edge, alphabets of 9..33 symbols (printers that wrap or group labels, parsers that split them)
+    for _ in range(60 if thorough else 8):
+        yield {'kind': 'dfa', 'cls': 'many_labels_on_one_edge', 'ref': txg.dfa_wide(rng)}
+        R, eps = txg.nfa_wide(rng)
+        yield {'kind': 'nfa', 'cls': 'many_labels_on_one_edge', 'ref': R, 'eps': eps, 'container': rng.choice(adapt.NFA_KINDS)}
+        RP, eps = txg.pda_wide(rng)
+        yield {'kind': 'pda', 'cls': 'many_labels_on_one_edge', 'ref': RP, 'eps': eps}
+        yield {'kind': 'tm', 'cls': 'many_labels_on_one_edge', 'ref': txg.tm_wide(rng)}
     # names that differ only in leading zeros, prefixes of each other, digits only
     for pool in (['0', '00', '1', '01', '001'], ['q1', 'q01', 'q001', 'q10', 'q010'], ['a', 'A', 'aa', 'aA', 'Aa']):
         for _ in range(3):
